@@ -44,6 +44,7 @@ func Prepare(c *core.Ctx) {
 	facts.CanonMethod = methName
 	facts.CanonFuncString = m.funcString
 	m.build(c)
+	buildProgIndex(c)
 	load.RoleFunc = func(key string) *ssa.Function { return m.fn[key] }
 	load.RoleType = func(pkgPath, name string) *types.Named {
 		for tn, cn := range m.typeCanon {
